@@ -3731,7 +3731,14 @@ int hawk_sed_exec (hawk_sed_t* sed, hawk_sed_io_impl_t inf, hawk_sed_io_impl_t o
 				n = match_address (sed, c);
 				if (n <= -1) { ret = -1; goto done; }
 
-				if (c->negated) n = !n;
+				if (c->negated)
+				{
+					n = !n;
+					/* a negated command runs only on lines outside its
+					 * address range. no range is in progress there, so
+					 * each such line is complete for the 'c' command */
+					c->state.c_ready = 1;
+				}
 				if (n == 0)
 				{
 					c = c->state.next;
